@@ -97,6 +97,11 @@ func (s stakeTx) Validate(ctx *action.Context, tx action.SignedTx) (bool, error)
 		return false, action.ErrInvalidPubkey
 	}
 
+	// ToCoinWithBase converts through int64: a value that does not fit would be debited as its
+	// wrapped remainder while the stake records keep the full value
+	if !st.Stake.Value.BigInt().IsInt64() {
+		return false, errors.Wrap(action.ErrInvalidAmount, st.Stake.String())
+	}
 	coin := st.Stake.ToCoinWithBase(ctx.Currencies)
 	if !coin.IsValid() {
 		return false, errors.Wrap(action.ErrInvalidAmount, coin.String())
